@@ -4,16 +4,16 @@
 From TS Require Import model.Base model.Reshard gen.ChunkGen gen.ReshardGen.
 
 (* ------------------------------------------------------------------ subdivide_shard over the generated arithmetic *)
-(* slice_sz, chunk_length, n_chunks, start, length are the expressions of the source (the g_sub definitions); the list updates
-   sub_offsets[dim] += start, sub_sizes[dim] = length and the narrow are hand-modelled *)
+(* slice_sz, chunk_length, n_chunks, start, length are the expressions of the source (the g_sub definitions of
+   gen/ChunkGen.v); the statements that build a piece from start and length (sub_offsets[dim] += start,
+   sub_sizes[dim] = length, the narrow) are g_sub_piece of gen/ReshardGen.v *)
 Definition subdivide_g (b : box) (dim : nat) (esize maxb : Z) : list (Z * box) :=
   let sd := nth dim (bsz b) 0 in
   let slice_sz := g_sub_slice_sz (prodZ (bsz b)) sd esize in
   let chunk_length := g_sub_chunk_length maxb slice_sz in
   map (fun i =>
-         let start := g_sub_start i chunk_length in
-         let length := g_sub_length i chunk_length sd in
-         (start, mkBox (upd (boff b) dim (nth dim (boff b) 0 + start)) (upd (bsz b) dim length)))
+         let pc := g_sub_piece (boff b) (bsz b) dim (g_sub_start i chunk_length) (g_sub_length i chunk_length sd) in
+         (fst (fst pc), mkBox (fst (snd pc)) (snd (snd pc))))
       (upto (g_sub_n_chunks sd chunk_length)).
 
 Definition write_shards_g {E} (dim : nat) (esize maxb : Z) (locals : list (dshard E)) : list (dshard E) :=
